@@ -105,6 +105,16 @@ def rename_all(r, model, kind):
     return m, "rename-all-%ss" % kind
 
 
+def drop_all(r, model, kind):
+    """remove every guard / every action from the table: files whose tags all derive from them keep no tag at all"""
+    import copy
+    m = copy.deepcopy(model)
+    col = BLOCKS[kind][2][0]
+    for row in m["tt"]:
+        row[col] = "None"
+    return m, "drop-all-%ss" % kind
+
+
 def lost_case(runner, r, oc, reqs, pend, big=False, user_templates=False):
     model = genlib.rand_model(r, ("sm",) if user_templates else ("sm", "sm", "sm", "proto"), big)
     with scratch() as base:
@@ -123,7 +133,10 @@ def lost_case(runner, r, oc, reqs, pend, big=False, user_templates=False):
                 for rel, data in sorted(e2e.snapshot(real).items()):
                     if not rel.endswith(".LostCode.txt"):
                         genlib.edit_file(r, os.path.join(real, rel), fraction=0.8)
-                if kinds and r.random() < 0.7:
+                droppable = [k for k in kinds if k in ("guard", "action")]
+                if droppable and r.random() < 0.35:
+                    model, what = drop_all(r, model, r.choice(droppable))
+                elif kinds and r.random() < 0.7:
                     model, what = rename_all(r, model, r.choice(kinds))
                 else:
                     model, what = genlib.mutate_model(r, model)
@@ -241,7 +254,7 @@ def run(tier):
     proof = proof_status(PROP, thorough)
     oc = Outcome(PROP)
     oc.rule = ("lost: chains of model mutations with user text in 80% of the tag pairs, output directory spelled absolute / relative / './x/' / 'x//' / '../x' from other cwd; "
-               "also user template directories whose USER tags are all model-derived (per state / event / action / guard), with every element of a kind renamed at once, so that all tags of a file vanish; "
+               "also user template directories whose USER tags are all model-derived (per state / event / action / guard), with every element of a kind renamed at once or all guards / actions dropped, so that all tags of a file vanish or the file keeps no tag at all; "
                "oracle: every non-empty block whose tag vanished is in <file>.LostCode.txt next to the file, labelled, complete, listed in the return value, nothing spurious; "
                "bytes: Latin-1 / UTF-16 / NUL / invalid UTF-8 inside user blocks, regeneration must be byte-identical; every step also through the Lean pipeline model")
     oc.assumptions = TRUSTED
